@@ -1,5 +1,789 @@
-//! C20 harness (stub: not implemented yet).
+//! C20 — signed refs: canonical text round-trip, and what `SignedRefs::load_at` accepts.
+//!
+//! Cases (the same tokens the Lean driver reads, see `lean/HeartwoodModel/Driver/C20.lean`):
+//!
+//! * `rt <pairs>` — `pairs` = comma list `<namehex>:<oid40>` or `-`. Every name that is a valid
+//!   `RefString` is inserted into a `BTreeMap` → `Refs`; `Refs::canonical` → `Refs::from_canonical`.
+//!   Output `v=<validity bits|-> c=<blob> p=<refs|err>`.
+//! * `parse <blobhex>` — `Refs::from_canonical` on an arbitrary blob. Output `ok <refs>` | `err`.
+//! * `load <key32hex> <sighex|none> <blobhex|none> <sg> <local40> <ig>` — a commit with the given `refs`
+//!   and `signature` blobs is written into a real storage repository and loaded with the real
+//!   `SignedRefsAt::load_at(commit, key, &repo)`. `sg` (graph of the Ed25519 predicate for this key and
+//!   signature, `<msghex>:<0|1>,…`) and `ig` (graph of `identity_doc_at`, `<oid40>:<rid40|none>,…`) are the
+//!   opaque functions' values on the points the model needs; they are *checked* here against the real
+//!   functions (a wrong graph is a `bad-case`). Output `ok <refs>` | `err`.
+//!
+//! `<refs>` = `n;name:oid,…` up to 6 entries, `n;#<len>:<fnv1a-64 of canonical text>` beyond; `<blob>` = hex
+//! up to 200 bytes, `#<len>:<fnv>` beyond.
+//!
+//! The repository is rebuilt deterministically at start-up (fixed keys, fixed commit times), so the
+//! identity commits have the same object ids in every run and replay files stay valid.
+
+use std::collections::BTreeMap;
+
+use radicle::crypto::test::signer::MockSigner;
+use radicle::crypto::{PublicKey, Signature};
+use radicle::git::raw as git2;
+use radicle::git::{Oid, RefString};
+use radicle::identity::{Did, Doc, Project, RepoId, Visibility};
+use radicle::node::Alias;
+use radicle::storage::git::{Repository, UserInfo};
+use radicle::storage::refs::{self, Refs, SignedRefsAt, IDENTITY_ROOT};
+use radicle::storage::ReadRepository;
+use verif_common::*;
+
+// ---------------------------------------------------------------------------------------------
+// world
+
+struct World {
+    _tmp: tempfile::TempDir,
+    repo: Repository,
+    local: RepoId,
+    /// own identity root, other repo's identity root, commit without identity, commit with a garbage
+    /// identity blob, an object id that is not in the repository
+    roots: [Oid; 5],
+    signers: Vec<MockSigner>,
+}
+
+fn signer(k: u8) -> MockSigner {
+    let mut seed = [0xc2u8; 32];
+    seed[0] = k;
+    MockSigner::from_seed(seed)
+}
+
+fn pk(s: &MockSigner) -> PublicKey {
+    use radicle::crypto::Signer as _;
+    *s.public_key()
+}
+
+fn sign(s: &MockSigner, msg: &[u8]) -> Vec<u8> {
+    let sig: Signature = radicle::crypto::signature::Signer::<Signature>::try_sign(s, msg).expect("sign");
+    let bytes: &[u8] = sig.as_ref();
+    bytes.to_vec()
+}
+
+fn fixed_sig() -> git2::Signature<'static> {
+    git2::Signature::new("verif", "verif@example.com", &git2::Time::new(1_700_000_000, 0)).expect("sig")
+}
+
+fn commit_tree(raw: &git2::Repository, entries: &[(&str, &[u8])], nested: Option<(&str, &str, &[u8])>) -> Oid {
+    let mut tb = raw.treebuilder(None).expect("treebuilder");
+    for (name, content) in entries {
+        let b = raw.blob(content).expect("blob");
+        tb.insert(name, b, 0o100_644).expect("insert");
+    }
+    if let Some((dir, name, content)) = nested {
+        let mut sub = raw.treebuilder(None).expect("treebuilder");
+        let b = raw.blob(content).expect("blob");
+        sub.insert(name, b, 0o100_644).expect("insert");
+        let sub = sub.write().expect("write");
+        tb.insert(dir, sub, 0o040_000).expect("insert");
+    }
+    let tree = raw.find_tree(tb.write().expect("write")).expect("tree");
+    let sig = fixed_sig();
+    raw.commit(None, &sig, &sig, "verif\n", &tree, &[]).expect("commit").into()
+}
+
+fn world() -> World {
+    let tmp = tempfile::tempdir().expect("tempdir");
+    let signers: Vec<MockSigner> = (0..4).map(signer).collect();
+    let doc = |name: &str| {
+        Doc::initial(
+            Project::new(name.try_into().expect("name"), "verif".to_string(), RefString::try_from("master").expect("branch")).expect("project"),
+            Did::from(pk(&signers[0])),
+            Visibility::Public,
+        )
+    };
+    let (oid1, bytes1) = doc("paris").encode().expect("encode");
+    let (_oid2, bytes2) = doc("london").encode().expect("encode");
+    let local = RepoId::from(oid1);
+    let info = UserInfo { alias: Alias::new("verif"), key: pk(&signers[0]) };
+    let repo = Repository::create(tmp.path().join(local.canonical()), local, &info).expect("create repo");
+    let raw = &repo.backend;
+    let own = commit_tree(raw, &[], Some(("embeds", "radicle.json", &bytes1)));
+    let other = commit_tree(raw, &[], Some(("embeds", "radicle.json", &bytes2)));
+    let plain = commit_tree(raw, &[("README", b"no identity here")], None);
+    let garbage = commit_tree(raw, &[], Some(("embeds", "radicle.json", b"{ not an identity document")));
+    let missing: Oid = "1234567890abcdef1234567890abcdef12345678".parse().expect("oid");
+    World { _tmp: tmp, repo, local, roots: [own, other, plain, garbage, missing], signers }
+}
+
+impl World {
+    fn identity_at(&self, oid: Oid) -> Option<RepoId> {
+        self.repo.identity_doc_at(oid).ok().map(|d| RepoId::from(d.blob))
+    }
+}
+
+// ---------------------------------------------------------------------------------------------
+// canonical printing (mirrors the driver)
+
+fn fnv(bs: &[u8]) -> u64 {
+    let mut h: u64 = 0xcbf29ce484222325;
+    for b in bs {
+        h = (h ^ (*b as u64)).wrapping_mul(0x100000001b3);
+    }
+    h
+}
+
+fn show_blob(bs: &[u8]) -> String {
+    if bs.len() <= 200 { hex(bs) } else { format!("#{}:{}", bs.len(), fnv(bs)) }
+}
+
+fn show_refs(r: &Refs) -> String {
+    if r.len() <= 6 {
+        let items: Vec<String> = r.iter().map(|(n, o)| format!("{}:{}", hex_in(n.as_bytes()), o)).collect();
+        format!("{};{}", r.len(), items.join(","))
+    } else {
+        let c = r.canonical();
+        format!("{};#{}:{}", r.len(), c.len(), fnv(&c))
+    }
+}
+
+/// hex inside lists: the empty byte string is the empty string
+fn hex_in(bs: &[u8]) -> String {
+    if bs.is_empty() { String::new() } else { hex(bs) }
+}
+
+fn unhex_in(s: &str) -> Option<Vec<u8>> {
+    if s.is_empty() { Some(vec![]) } else if s == "-" { None } else { unhex(s) }
+}
+
+fn oid40(s: &str) -> Option<Oid> {
+    if s.len() != 40 || !s.bytes().all(|b| b.is_ascii_hexdigit()) {
+        return None;
+    }
+    s.parse().ok()
+}
+
+fn ref_string(name: &[u8]) -> Option<RefString> {
+    std::str::from_utf8(name).ok().and_then(|s| RefString::try_from(s).ok())
+}
+
+// ---------------------------------------------------------------------------------------------
+// running
+
+fn canon_err_class(e: &refs::canonical::Error) -> &'static str {
+    use refs::canonical::Error as E;
+    match e {
+        E::InvalidRef(_) => "ref",
+        E::InvalidFormat => "format",
+        E::Io(_) => "utf8",
+        E::Git(_) => "oid",
+    }
+}
+
+fn run_rt(pairs: &str) -> Outcome {
+    let mut ps: Vec<(Vec<u8>, Oid)> = vec![];
+    if pairs != "-" {
+        for p in pairs.split(',') {
+            let Some((n, o)) = p.split_once(':') else { return Outcome::new("bad-case").trivial() };
+            let (Some(n), Some(o)) = (unhex_in(n), oid40(o)) else { return Outcome::new("bad-case").trivial() };
+            ps.push((n, o));
+        }
+    }
+    let mut map: BTreeMap<RefString, Oid> = BTreeMap::new();
+    let mut bits = String::new();
+    let (mut any_invalid, mut any_zero, mut dup) = (false, false, false);
+    for (n, o) in &ps {
+        match ref_string(n) {
+            Some(r) => {
+                bits.push('1');
+                any_zero |= o.is_zero();
+                dup |= map.insert(r, *o).is_some();
+            }
+            None => {
+                bits.push('0');
+                any_invalid = true;
+            }
+        }
+    }
+    if bits.is_empty() {
+        bits.push('-');
+    }
+    let refs = Refs::from(map);
+    let res = catch(|| {
+        let c = refs.canonical();
+        let p = Refs::from_canonical(&c);
+        (c, p)
+    });
+    let mut o = match res {
+        Err(m) => Outcome::new("panic").violation("panic", format!("canonical/from_canonical panicked: {m}")),
+        Ok((c, p)) => {
+            let shown = match &p {
+                Ok(r) => show_refs(r),
+                Err(_) => "err".to_string(),
+            };
+            let mut o = Outcome::new(format!("v={} c={} p={}", bits, show_blob(&c), shown));
+            // Oracle: the property statement. Valid names, non-zero oids ⇒ parses back to the same set.
+            if !any_zero {
+                match &p {
+                    Ok(r) if *r == refs => {}
+                    Ok(_) => o = o.violation("roundtrip-differs", "from_canonical(canonical(refs)) != refs"),
+                    Err(e) => o = o.violation("roundtrip-differs", format!("from_canonical(canonical(refs)) failed: {e}")),
+                }
+            }
+            o
+        }
+    };
+    o.nontrivial = !refs.is_empty();
+    o = o.tag("rt");
+    if refs.len() > 100 {
+        o = o.tag("rt-large");
+    }
+    if refs.is_empty() {
+        o = o.tag("rt-empty");
+    }
+    if any_invalid {
+        o = o.tag("rt-has-invalid-name");
+    }
+    if any_zero {
+        o = o.tag("rt-has-zero-oid");
+    }
+    if dup {
+        o = o.tag("rt-duplicate-name");
+    }
+    o
+}
+
+/// Oracle shared by `parse` and `load`: whatever is accepted re-canonicalises to something that parses
+/// back to exactly itself.
+fn reparse_violation(r: &Refs) -> Option<String> {
+    match Refs::from_canonical(&r.canonical()) {
+        Ok(r2) if r2 == *r => None,
+        Ok(_) => Some("canonical text of the accepted refs parses to different refs".into()),
+        Err(e) => Some(format!("canonical text of the accepted refs does not parse: {e}")),
+    }
+}
+
+fn run_parse(blob: &str) -> Outcome {
+    let Some(blob) = unhex(blob) else { return Outcome::new("bad-case").trivial() };
+    match catch(|| Refs::from_canonical(&blob)) {
+        Err(m) => Outcome::new("panic").violation("panic", format!("from_canonical panicked: {m}")),
+        Ok(Ok(r)) => {
+            let mut o = Outcome::new(format!("ok {}", show_refs(&r))).tag("parse-ok");
+            if r.canonical() == blob {
+                o = o.tag("parse-already-canonical");
+            } else {
+                o = o.tag("parse-lenient-accept");
+            }
+            if let Some(m) = reparse_violation(&r) {
+                o = o.violation("accepted-not-canonical", m);
+            }
+            o
+        }
+        Ok(Err(e)) => Outcome::new("err").tag(format!("parse-err-{}", canon_err_class(&e))),
+    }
+}
+
+fn load_err_class(e: &refs::Error) -> String {
+    use refs::Error as E;
+    match e {
+        E::InvalidSignature(_) => "signature".into(),
+        E::Canonical(c) => format!("canonical-{}", canon_err_class(c)),
+        E::MissingIdentity(_) => "missing-identity".into(),
+        E::MismatchedIdentity { .. } => "mismatched-identity".into(),
+        E::Git(_) | E::GitExt(_) => "git".into(),
+        _ => "other".into(),
+    }
+}
+
+fn run_load(w: &World, t: &[&str]) -> Outcome {
+    let bad = || Outcome::new("bad-case").trivial();
+    let [key, sig, blob, sg, local, ig] = t else { return bad() };
+    let Some(key) = unhex(key) else { return bad() };
+    let Ok(key) = <[u8; 32]>::try_from(key.as_slice()) else { return bad() };
+    let key = PublicKey::from(key);
+    let opt = |s: &str| -> Option<Option<Vec<u8>>> { if s == "none" { Some(None) } else { unhex(s).map(Some) } };
+    let (Some(sig), Some(blob)) = (opt(sig), opt(blob)) else { return bad() };
+    if oid40(local) != Some(*w.local) {
+        return bad();
+    }
+    let real_sig: Option<Signature> = sig.as_deref().and_then(|s| Signature::try_from(s).ok());
+    let sig_ok = |msg: &[u8]| -> bool { real_sig.as_ref().map(|s| key.verify(msg, s).is_ok()).unwrap_or(false) };
+    // the graphs in the case text must be the real functions' graphs
+    if *sg != "-" {
+        for e in sg.split(',') {
+            let Some((m, b)) = e.split_once(':') else { return bad() };
+            let Some(m) = unhex_in(m) else { return bad() };
+            if sig_ok(&m) != (b == "1") || (b != "0" && b != "1") {
+                return bad();
+            }
+        }
+    }
+    if *ig != "-" {
+        for e in ig.split(',') {
+            let Some((o, r)) = e.split_once(':') else { return bad() };
+            let Some(o) = oid40(o) else { return bad() };
+            let real = w.identity_at(o);
+            let claimed = if r == "none" { None } else { let Some(r) = oid40(r) else { return bad() }; Some(RepoId::from(r)) };
+            if real != claimed {
+                return bad();
+            }
+        }
+    }
+    let mut entries: Vec<(&str, &[u8])> = vec![];
+    if let Some(b) = &blob {
+        entries.push((refs::REFS_BLOB_PATH, b));
+    }
+    if let Some(s) = &sig {
+        entries.push((refs::SIGNATURE_BLOB_PATH, s));
+    }
+    let commit = commit_tree(&w.repo.backend, &entries, None);
+    // distribution: is this the interesting "raw blob signed, but the blob is not canonical" input?
+    let parsed = blob.as_deref().and_then(|b| Refs::from_canonical(b).ok());
+    let lenient = matches!((&parsed, &blob), (Some(p), Some(b)) if p.canonical() != *b);
+    let raw_signed = lenient && blob.as_deref().map(|b| sig_ok(b)).unwrap_or(false);
+    let o = match catch(|| SignedRefsAt::load_at(commit, key, &w.repo)) {
+        Err(m) => Outcome::new("panic").violation("panic", format!("load_at panicked: {m}")),
+        Ok(Err(e)) => Outcome::new("err").tag(format!("load-err-{}", load_err_class(&e))),
+        Ok(Ok(sra)) => {
+            let accepted: &Refs = &sra.sigrefs.refs;
+            let mut o = Outcome::new(format!("ok {}", show_refs(accepted))).tag("load-ok");
+            // Oracle: "verification succeeds only when the signature is by the claimed key over the
+            // canonical text of exactly the refs that are then accepted".
+            if sra.sigrefs.id != key || sra.at != commit {
+                o = o.violation("accepted-wrong-key", "verified refs carry another key or commit than the one loaded");
+            }
+            if !sig_ok(&accepted.canonical()) {
+                o = o.violation(
+                    "accepted-without-valid-signature",
+                    "the signature does not verify for the claimed key over the canonical text of the accepted refs",
+                );
+            }
+            match blob.as_deref().map(Refs::from_canonical) {
+                Some(Ok(parsed)) if parsed == *accepted => {}
+                _ => o = o.violation("accepted-differs-from-blob", "the accepted refs are not the refs of the blob"),
+            }
+            if let Some(m) = reparse_violation(accepted) {
+                o = o.violation("accepted-not-canonical", m);
+            }
+            match accepted.get(&IDENTITY_ROOT) {
+                Some(root) => {
+                    o = o.tag("load-ok-root-signed");
+                    if w.identity_at(root) != Some(w.local) {
+                        o = o.violation(
+                            "identity-root-unbound",
+                            format!("signed {} = {root} does not resolve to the local repository id", *IDENTITY_ROOT),
+                        );
+                    }
+                }
+                None => o = o.tag("load-ok-no-root"),
+            }
+            o
+        }
+    };
+    let o = if lenient { o.tag("load-noncanonical-blob") } else { o };
+    if raw_signed { o.tag("load-noncanonical-blob-signed-raw") } else { o }
+}
+
+fn run_case(w: &World, input: &str) -> Outcome {
+    let t: Vec<&str> = input.split(' ').collect();
+    match t.as_slice() {
+        ["rt", ps] => run_rt(ps),
+        ["parse", b] => run_parse(b),
+        ["load", rest @ ..] => run_load(w, rest),
+        _ => Outcome::new("bad-case").trivial(),
+    }
+}
+
+// ---------------------------------------------------------------------------------------------
+// generation
+
+const GOOD: &[&str] = &[
+    "refs", "heads", "tags", "rad", "root", "sigrefs", "id", "main", "master", "cobs", "xyz.radicle.patch", "a", "z", "A", "0",
+    "v1.0", "lock", "a.lock.b", "x.locked", "lockx", "a.b", "a-b", "a_b", "-", "x@", "@x", "a@b", "{", "}", "a{@}b", "é", "日本",
+    "\u{10348}", "feature", "x.y.z", "HEAD", "@@", "a@", "lo.ck", "a}{b", "%", "!", "\"", "#", "(", "|", "\u{80}", "\u{7ff}",
+];
+const BAD: &[&str] = &[
+    "x.lock", ".lock", ".hidden", "end.", "a..b", "..", ".", "a@{b", "@{", "{@", "{a@", "a b", " ", "a\tb", "a~b", "a^", "a:b", "a?", "a*",
+    "*", "[a", "a\\b", "\u{7f}", "\u{1}", "a\rb", "a\nb", "x\r", "\0", "é.lock", "日.", ".日", "{x@",
+];
+
+fn gen_name(rng: &mut Rng) -> Vec<u8> {
+    match rng.below(40) {
+        0 => return b"@".to_vec(),
+        1 => return b".".to_vec(),
+        2 => return vec![],
+        3 => return b"refs/rad/root".to_vec(),
+        4 => return b"refs/rad/sigrefs".to_vec(),
+        5 => {
+            // invalid UTF-8
+            let mut n = b"refs/heads/".to_vec();
+            n.extend_from_slice(*rng.pick(&[&[0xffu8][..], &[0xc3], &[0xe0, 0x80, 0x80], &[0xed, 0xa0, 0x80], &[0xf4, 0x90, 0x80, 0x80], &[0x80], &[0xc0, 0xaf]]));
+            if rng.bool() {
+                n.push(b'x');
+            }
+            return n;
+        }
+        6 => {
+            // long component
+            let mut n = b"refs/heads/".to_vec();
+            n.extend(std::iter::repeat(b'a' + rng.below(3) as u8).take(rng.range(200, 300) as usize));
+            return n;
+        }
+        _ => {}
+    }
+    let ncomp = rng.range(1, 5);
+    let bad_at = if rng.chance(1, 8) { Some(rng.below(ncomp)) } else { None };
+    let mut parts: Vec<String> = vec![];
+    for i in 0..ncomp {
+        if Some(i) == bad_at {
+            parts.push(rng.pick(BAD).to_string());
+        } else if i == 0 && rng.chance(1, 2) {
+            parts.push("refs".into());
+        } else if rng.chance(1, 6) {
+            // random printable component (may or may not be valid)
+            let len = rng.range(1, 6);
+            parts.push((0..len).map(|_| (0x21 + rng.below(0x5e) as u8) as char).filter(|c| *c != '/').collect());
+        } else {
+            parts.push(rng.pick(GOOD).to_string());
+        }
+    }
+    let mut s = parts.join("/");
+    match rng.below(40) {
+        0 => s.push('/'),
+        1 => s.insert(0, '/'),
+        2 => s = s.replacen('/', "//", 1),
+        _ => {}
+    }
+    s.into_bytes()
+}
+
+fn gen_oid(rng: &mut Rng) -> String {
+    match rng.below(30) {
+        0 => "0".repeat(40),
+        1 => format!("{}1", "0".repeat(39)),
+        2 => format!("1{}", "0".repeat(39)),
+        3 => "f".repeat(40),
+        _ => rng.bytes(20).iter().map(|b| format!("{b:02x}")).collect(),
+    }
+}
+
+fn gen_pairs(rng: &mut Rng, n: u64) -> Vec<(Vec<u8>, String)> {
+    let mut v: Vec<(Vec<u8>, String)> = vec![];
+    for i in 0..n {
+        let name = if n > 20 {
+            // large sets: mostly distinct valid names with shared prefixes (exercises the key order)
+            if rng.chance(1, 50) { gen_name(rng) } else { format!("refs/{}/{}{}", rng.pick(&["heads", "tags", "heads/a", "heads/a-", "heads/a."]).trim_end_matches('.'), rng.pick(GOOD), i).into_bytes() }
+        } else if !v.is_empty() && rng.chance(1, 10) {
+            v[rng.below(v.len() as u64) as usize].0.clone() // duplicate name
+        } else {
+            gen_name(rng)
+        };
+        v.push((name, gen_oid(rng)));
+    }
+    v
+}
+
+fn pairs_text(ps: &[(Vec<u8>, String)]) -> String {
+    if ps.is_empty() {
+        return "-".into();
+    }
+    ps.iter().map(|(n, o)| format!("{}:{}", hex_in(n), o)).collect::<Vec<_>>().join(",")
+}
+
+/// A refs blob: lines `oid name\n` from pairs, then (optionally) transformations the parser tolerates and
+/// mutations that break it.
+fn gen_blob(rng: &mut Rng, ps: &[(Vec<u8>, String)], canonical_only: bool) -> Vec<u8> {
+    // start from the sorted, deduplicated text (what `canonical` would print for valid names)
+    let mut m: BTreeMap<Vec<u8>, String> = BTreeMap::new();
+    for (n, o) in ps {
+        m.insert(n.clone(), o.clone());
+    }
+    let mut lines: Vec<Vec<u8>> = m.iter().map(|(n, o)| [o.as_bytes(), b" ", n.as_slice()].concat()).collect();
+    let mut crlf = false;
+    let mut final_nl = true;
+    if !canonical_only {
+        for _ in 0..rng.below(3) {
+            match rng.below(12) {
+                0 => {
+                    // shuffle
+                    for i in (1..lines.len()).rev() {
+                        lines.swap(i, rng.below(i as u64 + 1) as usize);
+                    }
+                }
+                1 if !lines.is_empty() => {
+                    // upper-case one oid
+                    let i = rng.below(lines.len() as u64) as usize;
+                    let l = &mut lines[i];
+                    let k = l.iter().position(|b| *b == b' ').unwrap_or(0);
+                    l[..k].make_ascii_uppercase();
+                }
+                2 => crlf = true,
+                3 if !lines.is_empty() => {
+                    // duplicate a line, possibly with another oid (last one wins)
+                    let i = rng.below(lines.len() as u64) as usize;
+                    let mut l = lines[i].clone();
+                    if rng.bool() && l.len() > 40 {
+                        l.splice(0..40, gen_oid(rng).into_bytes());
+                    }
+                    let at = rng.below(lines.len() as u64 + 1) as usize;
+                    lines.insert(at, l);
+                }
+                4 => {
+                    // zero-oid line
+                    let at = rng.below(lines.len() as u64 + 1) as usize;
+                    lines.insert(at, [&b"0000000000000000000000000000000000000000 "[..], &gen_name(rng)].concat());
+                }
+                5 => final_nl = false,
+                6 if !lines.is_empty() => {
+                    // short oid (libgit2 pads with zeros)
+                    let i = rng.below(lines.len() as u64) as usize;
+                    let cut = rng.range(1, 39) as usize;
+                    if lines[i].len() > 40 {
+                        lines[i].drain(cut..40);
+                    }
+                }
+                7 if !lines.is_empty() => {
+                    // 41 hex digits / non-hex digit / empty oid
+                    let i = rng.below(lines.len() as u64) as usize;
+                    match rng.below(3) {
+                        0 => lines[i].insert(0, b'a'),
+                        1 if !lines[i].is_empty() => lines[i][0] = b'g',
+                        _ => {
+                            let k = lines[i].iter().position(|b| *b == b' ').unwrap_or(0);
+                            lines[i].drain(..k);
+                        }
+                    }
+                }
+                8 => {
+                    let at = rng.below(lines.len() as u64 + 1) as usize;
+                    lines.insert(at, match rng.below(4) { 0 => vec![], 1 => b"nospace".to_vec(), 2 => b" ".to_vec(), _ => b"\r".to_vec() });
+                }
+                9 if !lines.is_empty() => {
+                    // two spaces / trailing space / tab instead of space
+                    let i = rng.below(lines.len() as u64) as usize;
+                    let k = lines[i].iter().position(|b| *b == b' ').unwrap_or(0);
+                    match rng.below(3) {
+                        0 => lines[i].insert(k, b' '),
+                        1 => lines[i].push(b' '),
+                        _ if !lines[i].is_empty() => lines[i][k] = b'\t',
+                        _ => {}
+                    }
+                }
+                10 if !lines.is_empty() => {
+                    // a lone \r at the end of a line (stripped only together with \n)
+                    let i = rng.below(lines.len() as u64) as usize;
+                    lines[i].push(b'\r');
+                }
+                _ => {}
+            }
+        }
+    }
+    let mut blob = vec![];
+    let n = lines.len();
+    for (i, l) in lines.into_iter().enumerate() {
+        blob.extend_from_slice(&l);
+        if i + 1 < n || final_nl {
+            if crlf {
+                blob.push(b'\r');
+            }
+            blob.push(b'\n');
+        }
+    }
+    blob
+}
+
+/// One single-point mutation of a byte string.
+fn mutate_bytes(rng: &mut Rng, b: &mut Vec<u8>) {
+    if b.is_empty() {
+        b.push(rng.next() as u8);
+        return;
+    }
+    let i = rng.below(b.len() as u64) as usize;
+    match rng.below(8) {
+        0 => {
+            b.remove(i);
+        }
+        1 => b.insert(i, *rng.pick(&[b' ', b'\n', b'0', b'a', b'/', b'.', 0xc3])),
+        2 => b[i] ^= 0x20, // case flip of letters / hex digits
+        3 => b[i] = *rng.pick(&[b'\n', b' ', b'\r', 0, b'/', b'.', b'0', b'f']),
+        _ => b[i] ^= 1 << rng.below(8),
+    }
+}
+
+fn valid_pairs(ps: &[(Vec<u8>, String)]) -> Vec<(Vec<u8>, String)> {
+    ps.iter().filter(|(n, _)| ref_string(n).is_some()).cloned().collect()
+}
+
+fn load_case(w: &World, key: &[u8; 32], sig: &Option<Vec<u8>>, blob: &Option<Vec<u8>>) -> String {
+    let pkey = PublicKey::from(*key);
+    let real_sig: Option<Signature> = sig.as_deref().and_then(|s| Signature::try_from(s).ok());
+    let sig_ok = |msg: &[u8]| -> bool { real_sig.as_ref().map(|s| pkey.verify(msg, s).is_ok()).unwrap_or(false) };
+    let mut msgs: Vec<Vec<u8>> = vec![];
+    let mut oids: Vec<Oid> = w.roots.to_vec();
+    if let Some(b) = blob {
+        if let Ok(r) = Refs::from_canonical(b) {
+            msgs.push(r.canonical());
+            if let Some(root) = r.get(&IDENTITY_ROOT) {
+                if !oids.contains(&root) {
+                    oids.push(root);
+                }
+            }
+        }
+        if !msgs.contains(b) {
+            msgs.push(b.clone());
+        }
+    }
+    let sg = if msgs.is_empty() {
+        "-".to_string()
+    } else {
+        msgs.iter().map(|m| format!("{}:{}", hex_in(m), sig_ok(m) as u8)).collect::<Vec<_>>().join(",")
+    };
+    let ig = oids
+        .iter()
+        .map(|o| format!("{}:{}", o, w.identity_at(*o).map(|r| (*r).to_string()).unwrap_or("none".into())))
+        .collect::<Vec<_>>()
+        .join(",");
+    let o = |x: &Option<Vec<u8>>| x.as_ref().map(|b| hex(b)).unwrap_or("none".into());
+    format!("load {} {} {} {} {} {}", hex(key), o(sig), o(blob), sg, *w.local, ig)
+}
+
+fn key_bytes(s: &MockSigner) -> [u8; 32] {
+    let k = pk(s);
+    let b: &[u8] = k.as_ref();
+    b.try_into().expect("32 bytes")
+}
+
+/// A signed-refs case and (often) a single-point tampering of it.
+fn gen_load(w: &World, rng: &mut Rng) -> Vec<String> {
+    let s = &w.signers[rng.below(w.signers.len() as u64) as usize];
+    let key = key_bytes(s);
+    let n = rng.below(7);
+    let mut ps = valid_pairs(&gen_pairs(rng, n));
+    ps.retain(|(n, _)| n != b"refs/rad/root");
+    // the signed identity root
+    let root = match rng.below(20) {
+        0..=9 => Some(0),
+        10..=12 => Some(1),
+        13 => Some(2),
+        14 => Some(3),
+        15 => Some(4),
+        _ => None,
+    };
+    if let Some(i) = root {
+        ps.push((b"refs/rad/root".to_vec(), w.roots[i].to_string()));
+    }
+    let canonical_only = rng.chance(3, 5);
+    let blob = gen_blob(rng, &ps, canonical_only);
+    // what is signed: the canonical text of what the blob parses to / the raw blob / something else
+    let msg = match (rng.below(20), Refs::from_canonical(&blob)) {
+        (0..=12, Ok(r)) => r.canonical(),
+        (13..=17, _) | (0..=12, Err(_)) => blob.clone(),
+        _ => b"something else".to_vec(),
+    };
+    let sig = sign(s, &msg);
+    let mut out = vec![load_case(w, &key, &Some(sig.clone()), &Some(blob.clone()))];
+    // single-point tampering
+    for _ in 0..rng.below(3) {
+        let (mut k2, mut s2, mut b2) = (key, Some(sig.clone()), Some(blob.clone()));
+        match rng.below(14) {
+            0..=5 => mutate_bytes(rng, b2.as_mut().unwrap()),
+            6 => {
+                // change one hex digit of one oid to another value
+                let b = b2.as_mut().unwrap();
+                if b.len() >= 40 {
+                    let line_starts: Vec<usize> = std::iter::once(0).chain(b.iter().enumerate().filter(|(_, c)| **c == b'\n').map(|(i, _)| i + 1)).filter(|i| i + 40 <= b.len()).collect();
+                    let at = line_starts[rng.below(line_starts.len() as u64) as usize] + rng.below(40) as usize;
+                    b[at] = if b[at] == b'7' { b'8' } else { b'7' };
+                }
+            }
+            7 | 8 => {
+                let i = rng.below(64) as usize;
+                s2.as_mut().unwrap()[i] ^= 1 << rng.below(8);
+            }
+            9 => {
+                let i = rng.below(32) as usize;
+                k2[i] ^= 1 << rng.below(8);
+            }
+            10 => k2 = key_bytes(&w.signers[rng.below(w.signers.len() as u64) as usize]),
+            11 => match rng.below(3) {
+                0 => s2 = None,
+                1 => {
+                    s2.as_mut().unwrap().pop();
+                }
+                _ => s2.as_mut().unwrap().push(0),
+            },
+            12 => b2 = None,
+            _ => {
+                // swap in another root
+                let b = b2.as_mut().unwrap();
+                if let Some(i) = root {
+                    let from = w.roots[i].to_string();
+                    let to = w.roots[(i + 1 + rng.below(4) as usize) % 5].to_string();
+                    if let Some(pos) = b.windows(40).position(|x| x == from.as_bytes()) {
+                        b[pos..pos + 40].copy_from_slice(to.as_bytes());
+                    }
+                }
+            }
+        }
+        out.push(load_case(w, &k2, &s2, &b2));
+    }
+    out
+}
+
+fn gen_parse(rng: &mut Rng) -> String {
+    let (any, n) = (rng.chance(1, 6), rng.below(8));
+    let ps = if any { gen_pairs(rng, n) } else { valid_pairs(&gen_pairs(rng, n)) };
+    let canonical_only = rng.chance(1, 4);
+    let mut blob = gen_blob(rng, &ps, canonical_only);
+    if rng.chance(1, 4) {
+        mutate_bytes(rng, &mut blob);
+    }
+    if rng.chance(1, 60) {
+        let n = rng.below(40) as usize;
+        blob = rng.bytes(n);
+    }
+    format!("parse {}", hex(&blob))
+}
+
+fn gen_rt(rng: &mut Rng, large: bool) -> String {
+    let n = if large { rng.range(101, 2000) } else if rng.chance(1, 12) { rng.range(13, 60) } else { rng.below(13) };
+    format!("rt {}", pairs_text(&gen_pairs(rng, n)))
+}
+
 fn main() {
-    eprintln!("C20: harness not implemented");
-    std::process::exit(3);
+    let mut ctx = Ctx::from_args("C20");
+    let w = world();
+    if !ctx.run_fixed(|i| run_case(&w, i)) {
+        let mut rng = ctx.rng();
+        // generated root/world cases that must exist whatever the seed: every identity-root kind, signed well
+        for i in 0..5 {
+            let s = &w.signers[0];
+            let blob = format!("{} refs/heads/main\n{} refs/rad/root\n", "a".repeat(40), w.roots[i]).into_bytes();
+            let input = load_case(&w, &key_bytes(s), &Some(sign(s, &blob)), &Some(blob));
+            let o = run_case(&w, &input);
+            ctx.record(&input, o);
+        }
+        let n = ctx.size(2_000, 100_000);
+        let n_large = ctx.size(4, 60);
+        let mut done = 0;
+        while done < n {
+            let inputs: Vec<String> = match rng.below(10) {
+                0..=2 => vec![gen_rt(&mut rng, false)],
+                3..=5 => vec![gen_parse(&mut rng)],
+                _ => gen_load(&w, &mut rng),
+            };
+            for input in inputs {
+                let o = run_case(&w, &input);
+                ctx.record(&input, o);
+                done += 1;
+            }
+        }
+        for _ in 0..n_large {
+            let input = gen_rt(&mut rng, true);
+            let o = run_case(&w, &input);
+            ctx.record(&input, o);
+        }
+    }
+    ctx.finish(
+        "three streams: rt = ref sets of 0..60 (a few of 100..2000) names built from valid/invalid components near the \
+         ref-format limits (.lock, dots, @{, cyclic {@, control/space, multi-byte, invalid UTF-8, long, duplicates, shared \
+         prefixes) with random/zero/extreme oids; parse = canonical blobs under tolerated transformations (shuffle, upper-case, \
+         CRLF, duplicate lines, zero oids, short oids, missing final newline) and breaking single-byte mutations; load = real \
+         Ed25519-signed (canonical text / raw blob / other message) refs commits with every kind of identity root, each followed \
+         by single-point tamperings of blob, oid, signature, key, root. non-trivial = rt with at least one valid ref, every \
+         parse/load case; distinct by input text",
+        false,
+    );
 }
